@@ -67,8 +67,17 @@ impl Code {
 				}
 			}
 			if interests.local_variable_table || interests.local_variable_type_table {
-				if let Some(local_variables) = self.local_variables {
-					code_visitor.visit_local_variables(local_variables)?;
+				if let Some(mut local_variables) = self.local_variables {
+					// like the class reader: only what the table(s) the visitor is interested in state
+					let was_empty = local_variables.is_empty();
+					for lv in &mut local_variables {
+						if !interests.local_variable_table { lv.descriptor = None; }
+						if !interests.local_variable_type_table { lv.signature = None; }
+					}
+					local_variables.retain(|lv| lv.descriptor.is_some() || lv.signature.is_some());
+					if was_empty || !local_variables.is_empty() {
+						code_visitor.visit_local_variables(local_variables)?;
+					}
 				}
 			}
 
